@@ -103,7 +103,7 @@ Next == \/ \E m \in {"one", "two", "none"} : Create(m)
 Spec == Init /\ [][Next]_vars
 
 (* ------------------------------------------------------------------ the reader *)
-Holds(p, u) == p # "" /\ fs[p].kind = "file" /\ u \in fs[p].packs
+Holds(p, u) == p \in Paths /\ fs[p].kind = "file" /\ u \in fs[p].packs        \* a location naming no existing file holds nothing
 
 (* property level: identity decides *)
 Locate(u) == IF entry # "" /\ Holds(entry, u) THEN "in"
@@ -114,7 +114,7 @@ Locate(u) == IF entry # "" /\ Holds(entry, u) THEN "in"
    parser is then applied to the whole file *)
 PinnedLocate(u) ==
   IF entry # "" /\ Holds(entry, u) THEN "in"
-  ELSE IF loc[u] # "" /\ fs[loc[u]].kind = "file"
+  ELSE IF loc[u] \in Paths /\ fs[loc[u]].kind = "file"
          THEN IF fs[loc[u]].wrapped THEN "error"                       \* "Pack Magic is not ContentPack" (F5)
               ELSE IF fs[loc[u]].packs = {u} THEN "at" ELSE "foreign"  \* bytes of another pack (F6)
   ELSE "missing"
